@@ -208,7 +208,7 @@ pub fn sim_check(id: &str) -> Option<SimCheck> {
         },
         "C02" => SimCheck {
             id: "C02",
-            prof: Profile { fault_pct: 20, kill_pct: 5, ..base },
+            prof: Profile { gen: GenOpts { regen_pct: 12, subgen_pct: 40, ..GenOpts::default() }, fault_pct: 20, kill_pct: 5, ..base },
             quick: 150_000,
             thorough: 2_000_000,
             rule: "histories of edits (modify/touch/back-date/delete sources, delete/touch/overwrite outputs, edit command or rspfile text, add/remove steps and edges, change include sets, move outputs) and invocations (target subsets, failing commands, killed n2); oracle after every exit-0 invocation: each wanted output has the content a clean build computes from the sources, and every wanted step that did not run is up to date by an independent model of the manifest rule. Non-trivial: a successful invocation that ran a non-empty proper subset of the wanted command steps",
